@@ -117,6 +117,34 @@ def run(ck):
                              f"{json.dumps(ev2 or ev)[:300]}", {"trace": run_lines[:max(at, idx)], "reject": rej2})
 
         ck.validate_trace_runs("Trace_Syncer", strict_cfg, trace, on_reject)
+    if ck.prop == "C25":
+        # real clock moving: the stored tail leaves the sampling window while batches below it keep failing
+        trace = f"{ck.work}/trace_aging.ndjson"
+        s = ck.harness(hb, ["record", "syncer-aging", "--seed", ck.seed, "--out", trace, "--runs", 2 if ck.quick else 8],
+                       "record_aging", timeout=3000)
+        p = s["props"]["C25"]
+        ck.cov["evaluations"] += p["evaluations"]
+        ck.cov["distinct_nontrivial"] += p["distinct_nontrivial"]
+        ck.cov["samples"] += p["samples"][:1]
+        consts = {"N": 12, "Batch": 2, "WSamp": 4}
+        strict_cfg = ck.cfg_with("Trace_Syncer.cfg", dict(consts, Strict="TRUE"), name="Trace_Syncer_sa.cfg")
+        loose_cfg = ck.cfg_with("Trace_Syncer.cfg", dict(consts, Strict="FALSE"), name="Trace_Syncer_la.cfg")
+
+        def on_reject_aging(rej, run_lines, idx):
+            p2 = f"{ck.work}/loose_aging_{abs(hash(run_lines[0])) % 10**8}.ndjson"
+            open(p2, "w").write("\n".join(run_lines) + "\n")
+            ok, rej2 = ck.tlc_trace("Trace_Syncer", loose_cfg, p2, tag="loose_aging")
+            ev = rej["event"] if isinstance(rej["event"], dict) else {}
+            if ok:
+                ck.cov["drift"] += 1
+                vf.log(f"DRIFT property=C25 (aging) event {idx} ({ev.get('name')}): {json.dumps(ev)[:200]}")
+                return
+            ck.violation({"kind": "property", "invariant": rej2.get("invariant"), "event": "fetch", "scenario": "aging"},
+                         f"aging run: property {rej2.get('invariant')} fails at event {rej2['at']}: "
+                         f"{json.dumps(rej2.get('event') or ev)[:300]}", {"trace": run_lines[:max(rej2['at'], idx)], "reject": rej2,
+                                                                          "consts": consts})
+
+        ck.validate_trace_runs("Trace_Syncer", strict_cfg, trace, on_reject_aging)
     ck.cov["rule"] = ("one evaluation = one recorded run of the real Syncer; non-trivial = run with >= 3 fetches and at "
                       "least one prune / foreign answer / disconnect")
     ck.assumptions += ["real clock: header times are 100 s apart, window edges 50 s away from any header time",
@@ -135,6 +163,8 @@ def replay(ck):
         n = json.loads(c["trace"][0]).get("now", 40)
         combo = [x for x in COMBOS_THOROUGH if x[0] == n] or [COMBOS_THOROUGH[0]]
         nn, batch, k = combo[0]
+        if "consts" in c:
+            nn, batch, k = c["consts"]["N"], c["consts"]["Batch"], c["consts"]["WSamp"]
         cfg = ck.cfg_with("Trace_Syncer.cfg", {"N": nn, "Batch": batch, "WSamp": k, "Strict": "FALSE"}, name=f"rt{i}.cfg")
         ok, rej = ck.tlc_trace("Trace_Syncer", cfg, p, tag=f"rt{i}")
         if not ok:
